@@ -21,6 +21,11 @@ static void runC19(long base) {
 
 int main(int argc, char** argv) {
   vrt::init(argc, argv);
+  // Initialise NewThreadInvoker's function-local static tracker while the process is still
+  // single-threaded (a contended first use goes through __cxa_guard_acquire -> syscall(SYS_futex)
+  // with 4 arguments, which the runtime's 6-argument syscall() interposer over-reads under ASan).
+  dispenso::NewThreadInvoker().schedule([]() {});
+  dispenso::detail::drainNewThreadInvokerThreads();
   std::string p = vrt::g_args.prop;
   // sanitizer sweeps (C10 / C11) re-run the engine's own case sets; --workload picks one
   if (p == "C10" || p == "C11") p = vrt::g_args.get("workload", "all");
